@@ -240,6 +240,11 @@ def known_match(finding, viol):
     return True
 
 
+def _stem(name):
+    import re
+    return re.sub(r"@(exit|path)-\d+", "", name)
+
+
 def main(argv=None):
     ap = argparse.ArgumentParser()
     ap.add_argument("prop")
@@ -338,6 +343,7 @@ def run(a):
         if ob.result["status"] == "vacuous":
             undecided.append({"obligation": ob.name, "why": "vacuity guard failed: the preconditions/hypotheses are contradictory"})
     replay_dir = os.path.join(OUT, "replays", pid)
+    expected_stems = {_stem(e) for e in expected}
     import shutil
     shutil.rmtree(replay_dir, ignore_errors=True)
     for ob in ded:
@@ -356,8 +362,10 @@ def run(a):
                       open(path, "w"), indent=1, default=str)
             violations.append({"property": pid, "obligation": ob.name, "replay": path, "no_input": True,
                                "witness": ob.result.get("model"), "clause": ob.name, "why": "refuted"})
-        elif (st == "unknown" and ob.result.get("model") is not None and ob.name in expected and ob.ex is not None
+        elif (st == "unknown" and ob.result.get("model") is not None and _stem(ob.name) in expected_stems and ob.ex is not None
               and _source_changed(ob, expected_sha)):
+            # (exits and paths are numbered in source order, so an edit renumbers them: the clause is identified without its @exit-N/@path-N tag;
+            #  on the unchanged tree it was discharged at every exit.)
             # The obligation was discharged on the unchanged tree, the text of the function it belongs to (or of a callee inlined into it) is different now,
             # no back end proves it any more, and the solver has a counter-model of the VC with every quantified hypothesis instantiated at the VC's ground
             # terms (candidate: the quantified originals were not all checked).  Reported as the failed obligation, without a concrete input.
